@@ -103,7 +103,7 @@ static Exec run_one(const std::vector<uint8_t>& prefix, int shutdownAt, vr::Ctx&
     sim::Server srv;
     auto router  = make_router();
     auto handler = Rest::Router::handler(router);
-    auto opts    = Http::Endpoint::options().flags(Tcp::Options::ReuseAddr).maxRequestSize(4096);
+    auto opts    = Http::Endpoint::options().flags(Tcp::Options::ReuseAddr | Tcp::Options::NoDelay).maxRequestSize(4096);
     srv.start(handler, opts, W);
     std::vector<ClientState> cl(C);
     std::string trace;
